@@ -10,6 +10,9 @@ Local Open Scope Z_scope.
 (** Fuel of the two [while] loops that have no iteration cap in the source (GammaPser, GammaQcf).
     A closed constant, so that the extracted program builds it once. *)
 Definition loop_fuel : nat := Z.to_nat 100000.
+(** denominators of the two powers of two below; closed constants for the same reason *)
+Definition pow2_52 : Z := 2 ^ 52.
+Definition pow2_970 : Z := 2 ^ 970.
 
 Section Model.
 Context {T : Type} (Ops : NumOps T).
@@ -126,26 +129,40 @@ Definition integrate (f : T -> T) (a b epsilon : T) (depth : nat) : T :=
     let S := ((h / #6) * (fa + #4 * fc + fb))%num in
     (sign * asr depth f a' b' (nabs Ops epsilon) S fa fb fc)%num.
 
-(** ** GammaQint(x,a): Q(x,a) by quadrature of the density around its peak *)
+(** ** GammaQint(x,a): Q(x,a) by quadrature of the density around its peak, panel by panel *)
+(* for(double t1 = tMin; t1 < x; t1 += panel_width) gammaP += Integrate(integrand, t1, std::min(x, t1 + panel_width), 1e-8);
+   at most 20 sqrt(a) / sqrt(a) (+1) panels; fuel 64 *)
+Fixpoint panel_loop (fuel : nat) (f : T -> T) (x w t1 acc : T) : res T :=
+  if nltb Ops t1 x then
+    match fuel with
+    | O => Fuel
+    | S k =>
+        let acc := (acc + integrate f t1 (nmin Ops x (t1 + w)%num) (dec 1 100000000) 20)%num in
+        panel_loop k f x w (t1 + w)%num acc
+    end
+  else Ok acc.
+
 Definition gammaq_int (x a : T) : res T :=
   (let* gln := gammaln a in
    let N := #10 in
    let tPeak := (a - n1 Ops)%num in
    let tMin := nmax Ops (n0 Ops) (tPeak - N * nsqrt Ops a)%num in
    let tMax := (tPeak + N * nsqrt Ops a)%num in
-   let gammaP :=
-     if ngtb Ops x tMax then n1 Ops
-     else if nltb Ops x tMin then n0 Ops
+   let* gammaP :=
+     if ngtb Ops x tMax then Ok (n1 Ops)
+     else if nltb Ops x tMin then Ok (n0 Ops)
      else
        let integrand := fun t => nexp Ops (nneg Ops gln - t + nln Ops t * (a - n1 Ops))%num in
        let tMin := if nltb Ops x tMin then n0 Ops else tMin in
-       let eps := find_epsilon integrand tMin x (dec 1 100000) in
-       integrate integrand tMin x eps 20 in
+       let panel_width := nsqrt Ops a in
+       panel_loop 64 integrand x panel_width tMin (n0 Ops) in
+   (* gammaP = std::min(1.0, std::max(0.0, gammaP)) *)
+   let gammaP := nmin Ops (n1 Ops) (nmax Ops (n0 Ops) gammaP) in
    Ok (n1 Ops - gammaP)%num)%res.
 
 (** std::numeric_limits<double>::epsilon() = 2^-52 and min()/epsilon() = 2^-970 *)
-Definition dbl_eps : T := lit 1 (2 ^ 52) 1 (-52).
-Definition dbl_fpmin : T := lit 1 (2 ^ 970) 1 (-970).
+Definition dbl_eps : T := lit 1 pow2_52 1 (-52).
+Definition dbl_fpmin : T := lit 1 pow2_970 1 (-970).
 
 (** ** GammaPser(x,a): series for P(x,a).  State (ap, del, sum). *)
 Fixpoint gser_loop (fuel : nat) (x ap del sum : T) : res (T * T * T) :=
